@@ -148,6 +148,7 @@ struct World {
   dispenso::ThreadPool* pool = nullptr;
   const Cfg* cfg = nullptr;
   std::atomic<int> next{0};
+  std::atomic<int> returned{0}; // pipelines of the chain that have returned to the driver
   // registered internals of the running pipeline (projection)
   dispenso::ConcurrentTaskSet* tasks = nullptr;
   std::vector<std::function<void(Json&)>> gates;
@@ -388,7 +389,7 @@ static bool siteFilter(const char* s) {
 }
 
 static ctl::RunResult execute(const std::vector<Cfg>& chain, ctl::RunOptions opts, ctl::Trace& tr,
-                              const std::string& tag, int fix) {
+                              const std::string& tag, int fix, bool* teardownOnly) {
   World* w = new World();
   w->cfg = &chain[0];
   for (auto& l : g_live)
@@ -442,6 +443,7 @@ static ctl::RunResult execute(const std::vector<Cfg>& chain, ctl::RunOptions opt
         objs += v;
       }
       ctl::note("ret", code, ids);
+      w->returned.fetch_add(1);
       ctl::note("live", objs, (long long)g_payloadErrors.load());
     }
     ctl::point("DrDel");
@@ -450,6 +452,8 @@ static ctl::RunResult execute(const std::vector<Cfg>& chain, ctl::RunOptions opt
     ctl::point("DrEnd");
   });
   ctl::RunResult res = c.run(opts);
+  // an incomplete run in which every pipeline had already returned stopped inside ~ThreadPool (C09's business)
+  *teardownOnly = !res.completed && w->returned.load() == (int)chain.size();
   if (res.completed)
     delete w;
   return res;
@@ -472,26 +476,43 @@ int main(int argc, char** argv) {
   uint64_t seed = (uint64_t)a.num("seed", 1);
   int fix = (int)a.num("fix", 1);
   bool stop = false;
-  for (size_t pi = 0; pi < progs.size() && !stop; ++pi) {
-    for (long long i = 0; i < n; ++i) {
-      ctl::RunOptions o;
-      o.mode = ctl::RunOptions::Random;
-      o.seed = seed * 1000003ULL + (uint64_t)i * 7919ULL + pi;
-      int pct = (int)a.num("pct", -1);
-      o.pctDepth = pct >= 0 ? pct : (i % 3 == 2 ? 3 : 0);
-      o.allowTimeout = !a.has("notimeout");
-      o.maxSteps = (size_t)a.num("maxsteps", 30000);
-      auto r = execute(progs[pi], o, tr, "p" + std::to_string(pi) + "s" + std::to_string(o.seed), fix);
+  // executions are numbered e = 0 .. n*|progs|-1 (round robin over the programs); --from resumes after an
+  // execution that could not be unwound (one incomplete execution ends the process)
+  long long total = n * (long long)progs.size();
+  long long e = a.num("from", 0);
+  if (a.has("count"))
+    total = std::min(total, e + a.num("count", 1));
+  for (; e < total && !stop; ++e) {
+    size_t pi = (size_t)(e % (long long)progs.size());
+    long long i = e / (long long)progs.size();
+    ctl::RunOptions o;
+    o.mode = ctl::RunOptions::Random;
+    o.seed = seed * 1000003ULL + (uint64_t)i * 7919ULL + pi;
+    int pct = (int)a.num("pct", -1);
+    o.pctDepth = pct >= 0 ? pct : (i % 3 == 2 ? 3 : 0);
+    o.allowTimeout = !a.has("notimeout");
+    o.maxSteps = (size_t)a.num("maxsteps", 30000);
+    bool teardownOnly = false;
+    auto r = execute(progs[pi], o, tr, "p" + std::to_string(pi) + "s" + std::to_string(o.seed), fix, &teardownOnly);
+    if (teardownOnly && r.deadlock) {
+      r.deadlock = false;
+      r.completed = true; // the pipelines completed; the trace keeps the Deadlock line
+      printf("TEARDOWN_INCOMPLETE exec=%lld cfg=%s\n", e, progs[pi][0].text.c_str());
       tot.add(r);
-      if (!r.completed) {
-        // parked threads cannot be unwound: the process ends after an incomplete run
-        fprintf(stderr, "INCOMPLETE prog=%zu cfg=%s seed=%llu deadlock=%d steps=%zu %s\n", pi,
-                progs[pi][0].text.c_str(), (unsigned long long)o.seed, (int)r.deadlock, r.steps, r.detail.c_str());
-        stop = true;
-        break;
-      }
+      stop = true;
+      ++e;
+      break;
+    }
+    tot.add(r);
+    if (!r.completed) {
+      printf("INCOMPLETE exec=%lld cfg=%s seed=%llu deadlock=%d steps=%zu %s\n", e, progs[pi][0].text.c_str(),
+             (unsigned long long)o.seed, (int)r.deadlock, r.steps, r.detail.c_str());
+      stop = true;
+      ++e;
+      break;
     }
   }
+  printf("NEXT %lld OF %lld\n", e, total);
   tr.flush();
   tot.print();
   fflush(stdout);
